@@ -177,6 +177,40 @@ def run(res, tier):
                        'and in that case the source is read after it was freed' % (f.q, (bad[0].get('q') or '').split('::')[-1] if bad else '', bad[0].get('l') if bad else '', cps[0].get('n'), bad[1].get('l') if bad else ''))
     if n_ll < 5 or n_sa < 2:
         raise AnalysisBroken('LENGTH-LAST / SELF-ALIAS matched %d / %d String methods' % (n_ll, n_sa))
+    # ---- STALE-PTR: a pointer into a String's characters does not survive a buffer move of that String
+    res.rule('STALE-PTR', 'in a String method no `const char *` local that was read from a String\'s character buffer (operator(), Cstr(), GetBuffer() — of *this or of an argument, which may be *this) '
+                          'before a contents-keeping buffer move (EnsureBufferSize(n, true, …) / Prealloc) is used after it', floor=1)
+    n_sp = 0
+    for f in smeth:
+        grow = [c for c in f.walk() if c['k'] == 'CXXMemberCallExpr' and (((c.get('q') or '').endswith('String::EnsureBufferSize') and len(c.args()) >= 2 and c.args()[1].get('v') in (1, True))
+                                                                       or (c.get('q') or '').endswith('String::Prealloc'))
+                and (c.receiver() is None or A.strip_casts(c.receiver())['k'] == 'CXXThisExpr')]
+        if not grow:
+            continue
+        n_sp += 1
+        bad = None
+        for v in f.walk():
+            if v['k'] != 'VarDecl' or not v['ch'] or not re.search(r'char \*( const)?$', v.type().strip()):
+                continue
+            src = [x for x in v['ch'][0].walk() if x.is_call() and re.search(r'String::(operator\(\)|Cstr|GetBuffer)$', x.get('q') or '')]
+            if not src:
+                continue
+            for g_ in grow:
+                vp, gp = P.pos_of(f, v), P.pos_of(f, g_)
+                if not (vp and gp and ((vp[0] == gp[0] and vp[1] < gp[1]) or C.can_reach(f, vp, set([gp])))):
+                    continue
+                for u in f.walk():
+                    if u['k'] == 'DeclRefExpr' and u.get('d') == v['d']:
+                        up = P.pos_of(f, u)
+                        if up and ((gp[0] == up[0] and gp[1] < up[1]) or C.can_reach(f, gp, set([up]))):
+                            bad = bad or (v, g_, u)
+        res.ob('STALE-PTR', f.where(bad[0]) if bad else f.where(grow[0]), '%s: no character pointer saved before the buffer can move is used after it' % f.q.split('::')[-1], bad is None, function=f.q,
+               key='STALE-PTR|%s' % f.q,
+               message='%s reads `%s` from a String\'s buffer (line %s), may then move its own buffer (line %s) and uses the saved pointer afterwards (line %s): when the argument is the String itself '
+                       '(s += s) the pointer refers to the old buffer — for an inline string that is the storage just overwritten with the heap pointer, length and capacity — so garbage is appended '
+                       'where a separate copy of the operand gives the right answer' % ((f.q, bad[0].get('n'), bad[0].get('l'), bad[1].get('l'), bad[2].get('l')) if bad else (f.q, '', '', '', '')))
+    if n_sp < 1:
+        raise AnalysisBroken('STALE-PTR: no String method with a contents-keeping buffer move found')
     # ---- CHAR-ORDER: "same as strcmp() except ...": bytes are ordered as unsigned values
     from msa import guards as G
     res.rule('CHAR-ORDER', 'in util/String.cpp an ordering comparison (<, <=, >, >=) of two non-constant operands of plain `char` type (a signed type here) is made only where both operands are known to be '
